@@ -22,12 +22,12 @@ SimHdr == /\ Tick(4, 1) /\ AddHeader
 SimFlush == /\ Idle /\ view # disk
             /\ disk' = view
             /\ hist' = Append(hist, [op |-> "flush", n |-> 0])
-            /\ UNCHANGED <<view, up, dead, sr, gcLast, pc, op, pend, acc, rst, confl, crashes, resets>>
+            /\ UNCHANGED <<view, up, dead, sr, gcLast, pc, op, pend, acc, rst, confl, crashes, resets, sync, jst>>
 
 SimRestart == /\ Tick(9, 4) /\ Idle
               /\ disk' = view
               /\ hist' = Append(hist, [op |-> "restart", n |-> 0])
-              /\ UNCHANGED <<view, up, dead, sr, gcLast, pc, op, pend, acc, rst, confl, crashes, resets>>
+              /\ UNCHANGED <<view, up, dead, sr, gcLast, pc, op, pend, acc, rst, confl, crashes, resets, sync, jst>>
 
 SimReset(d) == /\ Tick(11, 7) /\ Idle /\ ~GCOn /\ resets < MaxReset
                /\ view.cur - d >= 0
@@ -36,7 +36,7 @@ SimReset(d) == /\ Tick(11, 7) /\ Idle /\ ~GCOn /\ resets < MaxReset
                /\ acc' = view.cur - d
                /\ resets' = resets + 1
                /\ hist' = Append(hist, [op |-> "reset", n |-> d])
-               /\ UNCHANGED <<up, dead, sr, gcLast, pc, op, pend, rst, confl, crashes>>
+               /\ UNCHANGED <<up, dead, sr, gcLast, pc, op, pend, rst, confl, crashes, sync, jst>>
 
 SimInit == Init /\ hist = <<>>
 SimNext == SimAdd \/ SimAdd \/ SimHdr \/ SimFlush \/ SimRestart \/ (\E d \in {0, 1, 2, 3, 5, 8} : SimReset(d))
